@@ -10,6 +10,7 @@ from shexer.core.profiling.strategy.include_reverse_features_strategy import Inc
 from shexer.core.profiling.consts import RDF_TYPE_STR
 from shexer.utils.structures.dicts import ShapeExampleFeaturesDict
 from shexer.model.shape import STARTING_CHAR_FOR_SHAPE_NAME
+from shexer.utils import verif_trace
 
 _MINIMAL_IRI_INIT = STARTING_CHAR_FOR_SHAPE_NAME
 
@@ -220,6 +221,8 @@ class ClassProfiler(object):
 
     def _yield_relevant_triples(self):
         for a_triple in self._triples_yielder.yield_triples():
+            if verif_trace.active():
+                verif_trace.emit("pass.triple", n_pass=2, triple=verif_trace.snapshot_triple(a_triple))
             if self._strategy.is_a_relevant_triple(a_triple):
                 yield a_triple
 
